@@ -328,7 +328,7 @@ Section WithH.
     else (None, match oci_get s (d_dg d) with Some _ => true | None => false end).
 
   (* ---------------------------------------------------------------- file.Store *)
-  (* f_files: what is on disk under each name (a failed push removes its partial
+  (* f_files: what is on disk under each path (a failed push removes its partial
      file); f_names: nameStatus.exists; f_d2p: digestToPath; f_fb: fallback *)
   Record fstore := mkFs { f_files : list (str * str); f_names : list str;
                           f_d2p : list (str * str); f_fb : mem }.
@@ -349,7 +349,11 @@ Section WithH.
 
   Definition file_bufsz : nat := 32768.
 
-  Definition file_push (fuel : nat) (s : fstore) (name : str) (d : desc) (evs : list ev)
+  (* [path] = resolveWritePath name: the cleaned absolute path the name resolves to
+     (path/filepath is not modelled: the resolved path is an input).  nameStatus is
+     keyed by the NAME STRING, the file and digestToPath by the PATH: two names of one
+     path ("a", "./a") alias each other. *)
+  Definition file_push (fuel : nat) (s : fstore) (name path : str) (d : desc) (evs : list ev)
     : option rerr * fstore :=
     match name with
     | [] =>
@@ -362,10 +366,10 @@ Section WithH.
           | ((Some e, out), _) =>
               (* pushFile removes the partially written file again (os.Create truncated
                  whatever was there) *)
-              (Some e, mkFs (assoc_del (f_files s) name) (f_names s) (f_d2p s) (f_fb s))
+              (Some e, mkFs (assoc_del (f_files s) path) (f_names s) (f_d2p s) (f_fb s))
           | ((None, out), _) =>
-              (None, mkFs (assoc_set (f_files s) name out) (name :: f_names s)
-                          (assoc_set (f_d2p s) (d_dg d) name) (f_fb s))
+              (None, mkFs (assoc_set (f_files s) path out) (name :: f_names s)
+                          (assoc_set (f_d2p s) (d_dg d) path) (f_fb s))
           end
     end.
 
@@ -413,10 +417,16 @@ Section Histories.
   | oci_reach_limited comb fuel limit s d evs e s' :
       oci_reach s -> limited_push (oci_push H comb true fuel) limit s d evs = (e, s') -> oci_reach s'.
 
+  (* the pushed name does not alias a path that already serves visible content *)
+  Definition path_free (s : fstore) (path : str) : Prop :=
+    forall dg p, assoc_get (f_d2p s) dg = Some p -> str_eqb path p = false.
+
+  (* histories of the file store in which no push aliases a visible path *)
   Inductive file_reach : fstore -> Prop :=
   | file_reach_nil : file_reach (mkFs [] [] [] [])
-  | file_reach_push comb fuel s name d evs e s' :
-      file_reach s -> file_push H comb true fuel s name d evs = (e, s') -> file_reach s'.
+  | file_reach_push comb fuel s name path d evs e s' :
+      file_reach s -> path_free s path ->
+      file_push H comb true fuel s name path d evs = (e, s') -> file_reach s'.
 
   (* ---------------------------------------------------------------- concurrent pushes into one OCI layout *)
   (* Each push is a thread: Stat, CreateTemp, a sequence of Writes to its own
